@@ -5,7 +5,7 @@ import sys
 
 from ..core import Check, ERR
 from ..enforce_cases import (EFFECTS, NOMATCH, MALLOW, MDENY, MOTHER, BADSIZE, BADTYPE, REQ, realise, observe,
-                             all_sequences, NESTED_RULES)
+                             all_sequences, NESTED_RULES, run_history, ask_queries)
 
 PROP = "C01"
 
@@ -93,6 +93,7 @@ def run(chk, maxlen, nrandom, explain=False):
         cases.append((effect, eidx, True, outs, rules, REQ, True, rng.choice(["nest", "nest1"]), False, "reentrant-function"))
 
     reload_stratum(chk)
+    history_strata(chk, nrandom, explain)
 
     # run implementation
     reqs_model, reqs_spec, obs_impl, sides = [], [], [], []
@@ -207,11 +208,347 @@ def reload_stratum(chk):
     chk.extra.setdefault("strata_extra", {})["disabled_reload_cases"] = n
 
 
+# ====================================================================================================================
+# histories on one enforcer: request sequences / entry points / enforcer classes / role manager replaced / second
+# policy definition (see enforce_cases.run_history)
+FLAVOURS_PLAIN = [("Enforcer", None), ("SyncedEnforcer", None), ("FastEnforcer", None)]
+SUBS, OBJS = ["alice", "bob"], ["data1", "data2"]
+ROLES = ["admin", "staff"]
+EFTS = ["allow", "deny", "maybe", ""]
+CTX_P2 = dict(r="r2", p="p2", e="e2", m="m2")          # every definition is the second one
+CTX_P2_E = dict(r="r2", p="p2", e="e", m="m2")         # second request/policy/matcher, DEFAULT effect
+CTX_E2 = dict(r="r", p="p", e="e2", m="m")             # only the effect is the second one
+
+
+def key_flavours(md):
+    """FastEnforcer with a cache-key order: two distinct policy fields the matcher compares by equality with the same
+    request position (what C19 calls admissible)"""
+    import itertools
+    fields = [0, 1] if md["fn"] else [0, 1, 2]
+    if md["kind"] == "rbac":
+        fields = [f for f in fields if f != 0]          # the subject goes through g()
+    return [("FastEnforcer", list(t)) for t in itertools.permutations(fields, 2)]
+
+
+def flavours_for(md):
+    return FLAVOURS_PLAIN + (key_flavours(md) if md["kind"] != "two" else [])
+
+
+class RuleMaker:
+    def __init__(self, rng, md, keyed):
+        self.rng, self.md, self.keyed, self.n = rng, md, keyed, 0
+
+    def rule(self, sub=None, obj=None, act=None, eft=None):
+        rng, md = self.rng, self.md
+        self.n += 1
+        tag = f"t{self.n}"
+        subs = SUBS + (ROLES if md["kind"] == "rbac" else [])
+        acts = ["read", "write"] + (["f1", "f0", "s", "i"] if md["fn"] else [])
+        w = [5, 3] + ([1.2, 0.8, 0.5, 0.5] if md["fn"] else [])
+        sub = sub or rng.choice(subs)
+        obj = obj or rng.choice(OBJS)
+        act = act or rng.choices(acts, weights=w)[0]
+        if not self.keyed and rng.random() < 0.04:
+            # a rule of the wrong size (a keyed FastEnforcer only meets it inside its bucket: left to C19)
+            return [sub, obj, tag] if rng.random() < 0.5 else [sub, obj, act, "allow", "x", "y", tag]
+        if md["has_eft"]:
+            return [sub, obj, act, eft or rng.choices(EFTS, weights=[5, 4, 1, 0.5])[0], tag]
+        return [sub, obj, act, tag]
+
+
+def gen_request(rng, md, rules, keyed, policy_empty):
+    """mostly a request aimed at a stored rule; sometimes of the wrong size; empty fields only where the keyed
+    FastEnforcer's empty-bucket branch (C19's listed finding) cannot be reached"""
+    x = rng.random()
+    subs = SUBS + (ROLES if md["kind"] == "rbac" and rng.random() < 0.2 else [])
+    if rules and x < 0.6:
+        r = rng.choice(rules)
+        req = [r[0] if (md["kind"] != "rbac" or rng.random() < 0.3) else rng.choice(subs), r[1],
+               r[2] if (len(r) > 3 and r[2] in ("read", "write")) else rng.choice(["read", "write"])]
+    else:
+        req = [rng.choice(subs), rng.choice(OBJS), rng.choice(["read", "write"])]
+    if x > 0.86:
+        k = rng.choice([0, 1, 2, 4, 4, 5])
+        req = (req + [rng.choice(OBJS), "x"])[:k]
+    elif x > 0.82 and md["kind"] != "rbac" and (not keyed or policy_empty):
+        req = rng.choice([["", "", ""], ["", "", "x"], ["", "data1", "read"]])
+    return req
+
+
+def gen_history(rng, md, flavour, order, ctxs=(None,)):
+    keyed = bool(order)
+    mk = RuleMaker(rng, md, keyed)
+    steps, rules, g = [], {"p": [], "p2": []}, []
+    ptypes = ["p", "p2"] if md["kind"] == "two" else ["p"]
+
+    def add(pt):
+        r = mk.rule()
+        rules[pt].append(r)
+        steps.append(["add", pt, r])
+    for pt in ptypes:
+        for _ in range(rng.randint(0, 4)):
+            add(pt)
+    if md["kind"] == "rbac":
+        for _ in range(rng.randint(0, 3)):
+            g.append([rng.choice(SUBS + ROLES), rng.choice(ROLES)])
+            steps.append(["add_g", g[-1]])
+    for _ in range(rng.randint(4, 12)):
+        x = rng.random()
+        if x < 0.50:
+            ctx = rng.choice(list(ctxs))
+            pt = ctx["p"] if ctx else "p"
+            entry = rng.choices(["enforce_ex", "enforce", "batch_enforce"], weights=[5, 4, 2])[0]
+            n = rng.randint(1, 3) if entry == "batch_enforce" else 1
+            steps.append(["ask", entry, ctx, [gen_request(rng, md, rules[pt], keyed, not rules[pt]) for _ in range(n)]])
+        elif x < 0.68:
+            add(rng.choice(ptypes))
+        elif x < 0.75:
+            pt = rng.choice(ptypes)
+            if rules[pt]:
+                r = rules[pt].pop(rng.randrange(len(rules[pt])))
+                steps.append(["remove", pt, r])
+        elif x < 0.78:
+            steps.append(["clear"])
+            rules, g = {"p": [], "p2": []}, []
+        elif x < 0.85:
+            steps.append(["enable", rng.random() < 0.5])
+        elif md["kind"] == "rbac":
+            y = rng.random()
+            if y < 0.35:
+                g.append([rng.choice(SUBS + ROLES), rng.choice(ROLES)])
+                steps.append(["add_g", g[-1]])
+            elif y < 0.6 and g:
+                steps.append(["remove_g", g.pop(rng.randrange(len(g)))])
+            elif y < 0.9:
+                steps.append(["swap_rm"])
+            else:
+                steps.append(["build_links"])
+    # every history ends by asking, through each entry point, about a stored rule
+    for ctx in ctxs:
+        pt = ctx["p"] if ctx else "p"
+        for entry in ("enforce_ex", "enforce"):
+            steps.append(["ask", entry, ctx, [gen_request(rng, md, rules[pt], keyed, not rules[pt])]])
+    return steps
+
+
+def fault_histories(md, flavour, order):
+    """a call that raises leaves nothing behind: every way of making an ask raise (request too long / too short, a
+    rule whose matcher result is of the wrong type) through every entry point, followed through every entry point
+    by a request that a DIFFERENT rule decides"""
+    eft = ["allow"] if md["has_eft"] else []
+    a = ["alice", "data1", "read"] + eft + ["t1"]
+    b = ["bob", "data2", "write"] + eft + ["t2"]
+    base = [["add", "p", a], ["add", "p", b]]
+    faults = [("long", [], ["bob", "data2", "write", "extra"]), ("short", [], ["bob", "data2"])]
+    if md["fn"]:
+        faults.append(("badtype", [["add", "p", ["bob", "data2", "s"] + eft + ["t3"]]], ["bob", "data2", "zzz"]))
+    out = []
+    for _, extra, bad in faults:
+        for e1 in ("enforce", "enforce_ex", "batch_enforce"):
+            for e2 in ("enforce_ex", "enforce", "batch_enforce"):
+                out.append(base + extra + [["ask", e1, None, [bad]], ["ask", e2, None, [["alice", "data1", "read"]]],
+                                           ["ask", e2, None, [["bob", "data2", "write"]]]])
+    return out
+
+
+def rm_histories(md):
+    """the role manager object is replaced (set_role_manager + build_role_links) before / after the first request,
+    then the assignments change: matching follows the CURRENT links"""
+    eft = (lambda x: [x]) if md["has_eft"] else (lambda x: [])
+    rules = [["add", "p", ["admin", "data1", "read"] + eft("allow") + ["t1"]],
+             ["add", "p", ["alice", "data1", "read"] + eft("deny") + ["t2"]],
+             ["add", "p", ["bob", "data1", "read"] + eft("deny") + ["t3"]],
+             ["add_g", ["alice", "admin"]]]
+    asks = [["ask", "enforce_ex", None, [["alice", "data1", "read"]]], ["ask", "enforce", None, [["bob", "data1", "read"]]],
+            ["ask", "enforce_ex", None, [["bob", "data1", "read"]]], ["ask", "enforce", None, [["alice", "data1", "read"]]]]
+    out = []
+    for warm in (True, False):
+        for change in ([["remove_g", ["alice", "admin"]]], [["add_g", ["bob", "admin"]]],
+                       [["remove_g", ["alice", "admin"]], ["add_g", ["bob", "staff"]], ["add_g", ["staff", "admin"]]]):
+            for rebuild in (["swap_rm"], ["swap_rm", "build_links"], ["build_links"]):
+                out.append(rules + (asks if warm else []) + [[r] for r in rebuild] + asks + change + asks)
+    return out
+
+
+def p2_histories(chk, eidx_pairs, maxlen):
+    """second policy definition: p and p2 hold DIFFERENT numbers of rules with different outcomes; the request is made
+    without a context (p decides), with every definition the second one, and with p2/m2 under the default effect"""
+    alphabet = [NOMATCH, MALLOW, MDENY, MOTHER]
+    seqs = [[]] + list(all_sequences(alphabet, maxlen))
+    out = []
+    for outs_p in seqs:
+        for outs_p2 in seqs:
+            if len(outs_p) == len(outs_p2) and outs_p != outs_p2 and len(outs_p) > 1:
+                continue                                 # equal lengths: one representative pair per length is enough
+            steps = [["add", "p", r[:-1] + ["a" + r[-1]]] for r in realise(outs_p, True, None, allow_fn=False)]
+            steps += [["add", "p2", r[:-1] + ["b" + r[-1]]] for r in realise(outs_p2, True, None, allow_fn=False)]
+            for ctx in (None, CTX_P2, CTX_P2_E):
+                steps.append(["ask", "enforce_ex", ctx, [list(REQ)]])
+            steps.append(["ask", "enforce", CTX_P2, [list(REQ)]])
+            out.append(steps)
+    return out
+
+
+def judge_histories(chk, cases, explain, count=True):
+    """run the histories on real enforcers and evaluate the spec on every ask (ONE oracle round for all of them);
+    returns per case (failing asks, asks differing from the model only, broken harness premise or None, number of asks)
+    where an ask is reported as (ask record, observed, expected, model)"""
+    runs = [run_history(c["enforcer"], c["cache_key_order"], c["model"], c["steps"]) for c in cases]
+    qs = [[ask_queries(c["model"], a) for a in asks] for c, (asks, _) in zip(cases, runs)]
+    flat = [q for cq in qs for aq in cq for q in aq]
+    rep_m = chk.oracle.query([q[0] for q in flat])
+    rep_s = chk.oracle.query([q[1] for q in flat])
+    results, k = [], 0
+    for case, (asks, premise), cq in zip(cases, runs, qs):
+        bad, differ = [], []
+        for a, aq in zip(asks, cq):
+            exps, mods = [], []
+            for (mq, sq, eidx, outs, arity_ok, em) in aq:
+                exps.append(spec_python(eidx, outs, a["enabled"], arity_ok, em, rep_s[k]))
+                mods.append(rep_m[k])
+                k += 1
+
+            def shape(vals):
+                if a["entry"] == "enforce_ex":
+                    v = vals[0]
+                    return v if (explain or v[0] != 0) else [0, [v[1][0], []]]
+                if a["entry"] == "enforce":
+                    v = vals[0]
+                    return [0, v[1][0]] if v[0] == 0 else v
+                ds = []
+                for v in vals:                               # batch_enforce: the first request that raises, raises
+                    if v[0] != 0:
+                        return v
+                    ds.append(v[1][0])
+                return [0, ds]
+            obs = a["obs"]
+            if a["entry"] == "enforce_ex" and not explain and obs[0] == 0:
+                obs = [0, [obs[1][0], []]]
+            exp, mod = shape(exps), shape(mods)
+            if count:
+                (mq, sq, eidx, outs, arity_ok, em) = aq[0]
+                nontrivial = a["enabled"] and arity_ok and any(o != NOMATCH for o in outs)
+                chk.count((case["stratum"], case["enforcer"], eidx, tuple(outs), a["entry"], bool(a["ctx"])) if nontrivial else None)
+            if obs != exp:
+                bad.append((a, obs, exp, mod))
+            elif obs != mod:
+                differ.append((a, obs, exp, mod))
+        results.append((bad, differ, premise, len(asks)))
+    return results
+
+
+def judge_history(chk, case, explain, count=True):
+    return judge_histories(chk, [case], explain, count)[0]
+
+
+def shrink_history(chk, case, explain):
+    """drop steps while some ask of the history still fails"""
+    steps = list(case["steps"])
+    tries = 0
+    i = len(steps) - 1
+    while i >= 0 and tries < 80:
+        cand = steps[:i] + steps[i + 1:]
+        tries += 1
+        try:
+            bad, _, _, _ = judge_history(chk, dict(case, steps=cand), explain, count=False)
+        except Exception:  # noqa
+            bad = []
+        if bad:
+            steps = cand
+        i -= 1
+    return dict(case, steps=steps)
+
+
+def report_history(chk, case, explain, result):
+    bad, differ, premise, n = result
+    if bad:
+        small = shrink_history(chk, case, explain)
+        bad2, _, _, _ = judge_history(chk, small, explain, count=False)
+        if bad2:
+            case, bad = small, bad2
+        a, obs, exp, mod = bad[0]
+        chk.spec_fail(dict(case, failing_step=a["i"], state_at_failing_step=dict(
+            enabled=a["enabled"], policy=a["stored"], grouping=a["grouping"], explanation=a["explain_rule"])),
+            obs, exp, f"{a['entry']}{' through an EnforceContext' if a['ctx'] else ''} differs from the spec of the effect "
+                      f"expression on the current policy (step {a['i']} of the history)")
+    elif differ:
+        a, obs, exp, mod = differ[0]
+        chk.disagree(dict(case, failing_step=a["i"]), obs, mod, where=f"{a['entry']} on stratum {case['stratum']}")
+    if premise:
+        chk.disagree(case, premise, "get_policy lists the rules that were added", where=f"harness premise, stratum {case['stratum']}")
+    return n
+
+
+def history_strata(chk, nrandom, explain):
+    if chk.oracle is None:
+        return
+    rng = chk.rng
+    strata = chk.extra.setdefault("strata_history", {})
+    n_hist = dict(acl=max(150, nrandom // 8), rbac=max(150, nrandom // 8), two=max(60, nrandom // 25))
+    cases = []
+    # random histories: every enforcer class, every admissible key order
+    for kind, n in n_hist.items():
+        for _ in range(n):
+            effect, _e = EFFECTS[rng.randrange(len(EFFECTS))]
+            effect2 = EFFECTS[rng.randrange(len(EFFECTS))][0] if kind == "two" else None
+            md = dict(kind=kind, effect=effect, effect2=effect2, has_eft=(True if kind == "two" else rng.random() < 0.75),
+                      fn=rng.random() < 0.4)
+            fl, order = rng.choice(flavours_for(md))
+            ctxs = (None, CTX_P2, CTX_P2_E, CTX_E2) if kind == "two" else (None,)
+            cases.append(dict(stratum=f"history-{kind}", enforcer=fl, cache_key_order=order, model=md,
+                              steps=gen_history(rng, md, fl, order, ctxs)))
+    n_random = len(cases)
+    # a raising call leaves nothing behind: all classes x fault kinds x entry points
+    for effect, _e in EFFECTS:
+        for has_eft in (True, False):
+            for fn in (False, True):
+                md = dict(kind="acl", effect=effect, effect2=None, has_eft=has_eft, fn=fn)
+                for fl, order in flavours_for(md):
+                    for steps in fault_histories(md, fl, order):
+                        cases.append(dict(stratum="history-after-fault", enforcer=fl, cache_key_order=order, model=md, steps=steps))
+    n_fault = len(cases) - n_random
+    # role manager replaced
+    for effect, _e in EFFECTS:
+        for has_eft in (True, False):
+            md = dict(kind="rbac", effect=effect, effect2=None, has_eft=has_eft, fn=False)
+            for fl, order in flavours_for(md):
+                for steps in rm_histories(md):
+                    cases.append(dict(stratum="history-role-manager-replaced", enforcer=fl, cache_key_order=order, model=md, steps=steps))
+    n_rm = len(cases) - n_random - n_fault
+    # second policy definition
+    kinds = [EFFECTS[0], EFFECTS[1], EFFECTS[2], EFFECTS[3]]
+    for effect, e1 in kinds:
+        for effect2, e2 in kinds:
+            md = dict(kind="two", effect=effect, effect2=effect2, has_eft=True, fn=False)
+            for steps in p2_histories(chk, None, 2 if chk.tier == "quick" else 3):
+                cases.append(dict(stratum="context-p2", enforcer="Enforcer", cache_key_order=None, model=md, steps=steps))
+    n_p2 = len(cases) - n_random - n_fault - n_rm
+    asks, reported = 0, set()
+    for case, result in zip(cases, judge_histories(chk, cases, explain)):
+        asks += result[3]
+        if result[0] and (case["stratum"] in reported or len(chk.spec_failures) > 5):
+            continue                                     # one shrunk failing history per stratum is enough
+        if result[0]:
+            reported.add(case["stratum"])
+        report_history(chk, case, explain, result)
+    chk.traces += len(cases)
+    strata.update(random_histories=n_random, after_fault=n_fault, role_manager_replaced=n_rm, context_p2=n_p2, asks=asks)
+
+
 def replay(chk, explain):
     """re-run one recorded case on the implementation, the oracle (model + spec) and print the verdict"""
     import json
     rec = json.load(open(chk.replay_file))
     c = rec.get("case") or {}
+    if "steps" in c:
+        bad, differ, premise, _ = judge_history(chk, c, explain, count=False)
+        for a, obs, exp, mod in bad[:3]:
+            print(f"replay: step {a['i']} {a['entry']} impl={obs} spec={exp} model={mod}")
+        if bad:
+            print(f"VIOLATION property={chk.prop} replay={chk.replay_file}")
+            sys.exit(1)
+        print("replay passes: implementation agrees with the spec on every ask of this history")
+        sys.exit(0)
     if "outcomes" not in c:
         print("replay file names a broken theorem/correspondence, not an input:", json.dumps(rec.get("broken"))[:800])
         sys.exit(1)
@@ -239,7 +576,9 @@ def main(prop=PROP, explain=False):
                 "real policies (unique tag per rule) x 5 effect expressions x with/without effect column; exhaustive up "
                 "to the stated length + random up to length 12 + empty-policy / disabled / arity strata + the effect given as "
                 "second definition e2 through an EnforceContext (all pairs default/e2) + a matcher function that re-enters "
-                "enforce(); a case is "
+                "enforce() + histories on one fresh enforcer of every enforcer class (request sequences over the three entry "
+                "points, raising calls, enable toggles, role manager replaced, second policy definition p2 through a context), "
+                "each ask judged on the state the management calls produced; a case is "
                 "non-trivial when the enforcer is enabled, arity fits and at least one rule matches or errs; distinct "
                 "by (effect, column, outcome sequence)")
     chk.assumptions = [
